@@ -207,8 +207,11 @@ fn translate(ctx: &Ctx, log: &[(char, u32, u32)]) -> Vec<(char, i64, i64)> {
         if sr == 0 {
             return 0;
         }
-        let t = ctx.tags.rk.get(&sr).or_else(|| ctx.tags.rv.get(&sr)).copied().unwrap_or(0);
-        t.max(0)
+        // value objects are written 100 + tag (key and value tags overlap)
+        match ctx.tags.rk.get(&sr) {
+            Some(t) => (*t).max(0),
+            None => ctx.tags.rv.get(&sr).map(|t| if *t > 0 { 100 + *t } else { 0 }).unwrap_or(0),
+        }
     };
     log.iter().map(|(k, a, b)| (*k, tag(*a), tag(*b))).collect()
 }
